@@ -3,4 +3,5 @@ from . import _common
 
 
 def run(out):
-    _common.run(out, 'C11', x=[], s_props=['C11'])
+    # the unimock derivation is `cfg_attr(test, ..)` unless exported: type-check the corpus as a cfg(test) build
+    _common.run(out, 'C11', x=[dict(fn=progs3.c11_corpus, name='c11t', unimock=True, tests=True, compile_violation=True, compile_only=True)], s_props=['C11'])
